@@ -204,7 +204,7 @@ let raw_index (tr : 'i fsev list) (i : int) : int =
 
 let split_ws (s : string) : string list = List.filter (fun x -> x <> "") (String.split_on_char ' ' s)
 
-let run (ops : 'i idx_ops) (dump_index : 'i -> unit) (ic : in_channel) : unit =
+let run (ops : 'i idx_ops) (dump_index : 'i -> unit) (check_inv : params -> 'i st -> bool option) (ic : in_channel) : unit =
   let params = ref (mk_params 0xFFFFFFFF (32 lsl 20) 0x3f000000 false) in
   let st : 'i st ref = ref { s_mem = None; s_disk = disk0; s_trace = [] } in
   let pre : 'i disk ref = ref disk0 in
@@ -291,6 +291,11 @@ let run (ops : 'i idx_ops) (dump_index : 'i -> unit) (ic : in_channel) : unit =
                   end))
     | ["dump"] -> dump_state ops !st
     | ["dumprecs"] -> dump_recs !st
+    | ["checkinv"] ->
+        (match check_inv !params !st with
+         | Some true -> print_string "checkinv ok\n"
+         | Some false -> print_string "checkinv INVARIANT-FALSE\n"
+         | None -> print_string "checkinv ok\n")
     | ["dumpindex"] -> (match !st.s_mem with Some m -> dump_index m.m_idx | None -> print_string "mem closed\n")
     | ["crash"; i; c] ->
         (* process crash inside the last state-changing command *)
